@@ -180,7 +180,8 @@ def _gaps(log, timeout_abs):
         if k == "read":
             if ev[1] == "timeout" and start is None:
                 start = ev[3]
-            if ev[1] == "_tt":
+            # a deadline check = any clock read that is neither the start capture nor timeit's
+            if ev[1] not in ("timeout", "_wrapper"):
                 max_an = max(max_an, an)
                 max_pp = max(max_pp, len(pps))
                 max_sc = max(max_sc, sc - ap, sf - seq_len)
